@@ -1,7 +1,9 @@
 #![allow(clippy::all)]
 #![allow(dead_code)]
+#[cfg(not(feature = "slim"))]
 mod bfs;
 mod fw;
+#[cfg(not(feature = "slim"))]
 mod model;
 mod pool;
 mod props;
@@ -23,6 +25,7 @@ fn main() {
         let tier = if args[2] == "thorough" { Tier::Thorough } else { Tier::Quick };
         std::process::exit(props::worker(&args[1], tier, &args[3..]));
     }
+    #[cfg(not(feature = "slim"))]
     if args[0] == "selftest" {
         match bfs::self_test() {
             Ok(()) => println!("bfs self-test ok"),
